@@ -515,6 +515,7 @@ def gen_new(rng, dst, malformed):
     if malformed and rng.random() < 0.3: names = names[:-1] if names and rng.random() < 0.5 else names + [rng.choice(NAMES)]
     return {'op': 'new_rows', 'dst': dst, 'hdr': hdr, 'names': names, 'rows': rows}
 
+FRESH = itertools.count(1)
 ROWFNS = ['coalesce', 'isnone', 'ident', 'eq']
 def gen_rowfn(rng, t):
     k = rng.choice(ROWFNS)
@@ -573,10 +574,10 @@ def gen_op(rng, shadow, malformed):
             cols = list(t.cols) if t is not None else []
             olds = rng.sample(cols, min(len(cols), rng.choice([0, 1, 1, 2]))) + ([rng.choice(NAMES)] if rng.random() < 0.2 else [])
             olds = list(dict.fromkeys(olds))
-            news = rng.sample(['p', 'q', 'r', 's'], len(olds))          # fresh targets: never collide (key-order independent)
-            news = [x for x in news]
-            taken = set(cols)
-            sp = ['map', [[a, b] for a, b in zip(olds, news) if b not in taken]]
+            # targets are fresh for the whole history (never reused, never a base name): a collision would make the
+            # result depend on dict key order, which dict_concat takes from a set (hash order) - not modelled
+            news = ['n%d' % next(FRESH) for _ in olds]
+            sp = ['map', [[a, b] for a, b in zip(olds, news)]]
         return {'op': 'relabel', 'dst': dst, 'r': r, 'sp': sp}
     if kind == 'do':
         q = rng.random()
@@ -597,6 +598,8 @@ def gen_op(rng, shadow, malformed):
 
 def gen_history(rng, length, malformed):
     """the generator follows the list-of-records reference to produce mostly meaningful ops"""
+    global FRESH
+    FRESH = itertools.count(1)
     heap = [Ref([], []) for _ in range(NREGS)]; regs = list(range(NREGS))
     get = lambda r: heap[regs[r]]
     conv = lambda c: c if not isinstance(c, dict) else json.dumps(c, sort_keys=True)     # cells only need to be carried here
